@@ -246,13 +246,16 @@ theorem frame_property (env : SpecEnv) (fuel : Nat) (n : QNode) (v : Option Vert
 
 /-! ### the side conditions are necessary; the statements are not vacuous
 
-One small world: vertices `0, 1, 2` of type `A` with `x = 1, 1, 2`; edges `0 -e-> 1, 2`, `0 -f-> 1`,
-`1 -e-> 2`, no `g` edge; starting vertex `0`; arguments `one = 1`, `ones = [1]`. -/
+One small world (it is also the corpus `corpus/C23.cases`, where the same queries are run on the real
+engine): vertices `0, 1, 2, 3` of type `A` with `x = 1, 1, 2, 3`; edges `0 -e-> 1, 2`, `1 -e-> 2`,
+`2 -e-> 3`, `0 -f-> 1`, no `g` edge; starting vertex `0`; arguments `one = 1`, `ones = [1]`. -/
 
 namespace Example
 def D : Data := Data.mk
-  [⟨0, "A", [("x", .int64 1)]⟩, ⟨1, "A", [("x", .int64 1)]⟩, ⟨2, "A", [("x", .int64 2)]⟩]
-  [⟨0, "e", [], [1, 2]⟩, ⟨0, "f", [], [1]⟩, ⟨1, "e", [], [2]⟩] [⟨"R", [], [0]⟩] [] [("A", [])]
+  [⟨0, "A", [("x", .int64 1)]⟩, ⟨1, "A", [("x", .int64 1)]⟩, ⟨2, "A", [("x", .int64 2)]⟩,
+    ⟨3, "A", [("x", .int64 3)]⟩]
+  [⟨0, "e", [], [1, 2]⟩, ⟨0, "f", [], [1]⟩, ⟨1, "e", [], [2]⟩, ⟨2, "e", [], [3]⟩] [⟨"R", [], [0]⟩] []
+  [("A", [])]
 def env : SpecEnv := ⟨D, [("one", .int64 1), ("ones", .list [.int64 1])], []⟩
 def out (nm o : Name) : QField := .prop nm [.output o]
 /-- `{ R { e @fold @transform(op: "count") @filter(op: "=", value: ["$one"]) { x @output(name: "o") } } }` -/
@@ -267,9 +270,9 @@ def qOptTag : Query := ⟨"R", [], .mk none
 def qPlain : Query := ⟨"R", [], .mk none [.edge "e" [] .plain (.mk none [out "x" "o"])]⟩
 /-- `{ R { e @recurse(depth: 1) { x @output(name: "o") } } }` -/
 def qRec : Query := ⟨"R", [], .mk none [.edge "e" [] (.recurse 1) (.mk none [out "x" "o"])]⟩
-/-- `{ R { f @fold { e @recurse(depth: 0) { x @output(name: "o") } } } }` -/
+/-- `{ R { f @fold { e @recurse(depth: 1) { x @output(name: "o") } } } }` -/
 def qRecFold : Query := ⟨"R", [], .mk none
-  [.edge "f" [] (.fold []) (.mk none [.edge "e" [] (.recurse 0) (.mk none [out "x" "o"])])]⟩
+  [.edge "f" [] (.fold []) (.mk none [.edge "e" [] (.recurse 1) (.mk none [out "x" "o"])])]⟩
 
 /-- Evaluate `Spec.rows` on a concrete query by unfolding. -/
 macro "spec_eval" : tactic => `(tactic|
@@ -313,8 +316,8 @@ theorem partition_fails_with_tag_from_optional_scope :
 /-- Below a fold, raising a recursion depth changes the folded list, so the old row is gone.
 (`recurse_mono` needs `NoFoldPath`.) -/
 theorem recurse_in_fold_changes_row :
-    rows env qRecFold = .ok [[("o", .list [.int64 1])]] ∧
-      rows env (setRecurseDepth [0] 0 1 qRecFold) = .ok [[("o", .list [.int64 1, .int64 2])]] ∧
+    rows env qRecFold = .ok [[("o", .list [.int64 1, .int64 2])]] ∧
+      rows env (setRecurseDepth [0] 0 2 qRecFold) = .ok [[("o", .list [.int64 1, .int64 2, .int64 3])]] ∧
       ¬ NoFoldPath [0] qRecFold.root := by
   refine ⟨?_, ?_, by decide⟩ <;> (simp only [env, D, qRecFold, out]; spec_eval)
 
@@ -331,11 +334,11 @@ example : Interleave [[("o", Value.int64 1)]] [[("o", Value.int64 2)]]
   filter_partition env qPlain [0] 0 0 (.bin .equals) (.bin .notEquals) (.var "one") rfl rfl (by decide)
     "x" [.output "o"] rfl _ _ _ partition_example.1 partition_example.2.1 partition_example.2.2.1
 
-/-- Non-vacuity of `recurse_mono`: depth 1 → 2 adds a row in the middle. -/
+/-- Non-vacuity of `recurse_mono`: depth 1 → 2 adds a row in the middle and one at the end. -/
 theorem recurse_example :
     rows env qRec = .ok [[("o", .int64 1)], [("o", .int64 1)], [("o", .int64 2)]] ∧
       rows env (setRecurseDepth [] 0 2 qRec) =
-        .ok [[("o", .int64 1)], [("o", .int64 1)], [("o", .int64 2)], [("o", .int64 2)]] ∧
+        .ok [[("o", .int64 1)], [("o", .int64 1)], [("o", .int64 2)], [("o", .int64 2)], [("o", .int64 3)]] ∧
       kindAt [] 0 qRec.root = some (.recurse 1) := by
   refine ⟨?_, ?_, rfl⟩ <;> (simp only [env, D, qRec, out]; spec_eval)
 
